@@ -629,6 +629,29 @@ class Engine:
     def ev_JoinedStr(self, node, st):
         # f'{name}suffix' over string-valued names (no format spec / conversion): exact concatenation.
         # Every other f-string (messages) is an opaque string.
+        if len(node.values) == 1 and isinstance(node.values[0], ast.FormattedValue) and node.values[0].format_spec is not None \
+                and node.values[0].conversion == -1 and isinstance(node.values[0].format_spec, ast.JoinedStr) and getattr(self, 'effect', None) is None:
+            # f'{value:{width}.0f}': the text is an uninterpreted function (named after the literal skeleton of the format
+            # specification) of the value and of the embedded expressions
+            fv = node.values[0]
+            skeleton, emb = '', []
+            for p_ in fv.format_spec.values:
+                if isinstance(p_, ast.Constant) and isinstance(p_.value, str):
+                    skeleton += p_.value
+                elif isinstance(p_, ast.FormattedValue) and p_.format_spec is None and p_.conversion == -1:
+                    skeleton += '{}'
+                    emb.append(p_.value)
+                else:
+                    skeleton = None
+                    break
+            if skeleton is not None:
+                out = []
+                for s, vals in self.ev_seq([fv.value] + emb, st):
+                    try:
+                        out.append((s, self.fmt_app(skeleton, vals[0], list(vals[1:]))))
+                    except Unsupported:
+                        out.append((s, z3.String(uid('fstr'))))
+                return out
         parts = []
         for v in node.values:
             if isinstance(v, ast.Constant) and isinstance(v.value, str):
@@ -1116,6 +1139,10 @@ class Engine:
             ent = self.find_method(v.cls, '__getitem__')
             if ent and ent[2] is not None:
                 return self.call_user(UserFn(ent[0], ent[1], ent[2], v), [i], {}, st, node)
+        if isinstance(v, (Ref, Rec)) and v.cls == 'ndarray':
+            flds = st.heap[v.oid].fields if isinstance(v, Ref) else v.fields
+            if 'rows' in flds:
+                return self.index(flds['rows'], i, st, node)
         raise Unsupported('subscript of %r (line %s)' % (v, getattr(node, 'lineno', '?')))
 
     def ev_Lambda(self, node, st):
@@ -1711,8 +1738,20 @@ class Engine:
                 v = oc[1] if oc[0] == 'return' else None
                 if gen:
                     v = s2.out
+                # an abstract set handed to the callee and changed there in place (s.add(e) re-binds the callee's name): the
+                # caller's variable sees the change, as it does for the one shared set object in CPython
+                back = {}
+                pnames = [x.arg for x in fn.node.args.posonlyargs + fn.node.args.args]
+                if fn.selfv is not None:
+                    pnames = pnames[1:]
+                for i_, a_ in enumerate(args):
+                    if isinstance(a_, AbsSet) and i_ < len(pnames) and i_ < len(getattr(node, 'args', [])) and isinstance(node.args[i_], ast.Name):
+                        fin = s2.env.get(pnames[i_])
+                        if isinstance(fin, AbsSet) and fin is not a_:
+                            back[node.args[i_].id] = fin
                 # every path of the callee continues with its OWN copy of the caller's locals
-                s2.env = saved_env if not res else dict(saved_env)
+                s2.env = dict(saved_env)
+                s2.env.update(back)
                 s2.out = saved_out
                 res.append((s2, v))
             return res
